@@ -67,7 +67,10 @@ pub(crate) trait PendingRequest: Send {
             .ok_or_else(|| {
                 io::Error::new(
                     ErrorKind::Other,
-                    format!("Unexpected authorization header: {:?}", self.request()),
+                    format!(
+                        "Unexpected authorization header: {:?}",
+                        crate::net_utils::scrub_request(self.request())
+                    ),
                 )
             })
     }
@@ -77,7 +80,10 @@ pub(crate) trait PendingRequest: Send {
         self.request().uri.authority().ok_or_else(|| {
             io::Error::new(
                 ErrorKind::Other,
-                format!("Authority not found: {:?}", self.request()),
+                format!(
+                    "Authority not found: {:?}",
+                    crate::net_utils::scrub_request(self.request())
+                ),
             )
         })
     }
